@@ -46,6 +46,8 @@ def gen_case(rng):
                 case["kitty_version"] = rng.choice([[0, 20, 0], [0, 25, 0], [0, 30, 0]])
         else:
             case["term"] = rng.choice(TERMS["iterm2"])
+            if str(a.get("method", "")).lower() == "anim" and rng.random() < 0.6:
+                case["img"]["frames"] = rng.choice([2, 3])  # animated source: NATIVE animation
     if rng.random() < 0.1:
         case["via"] = "str"
         case["args"] = {k: v for k, v in case["args"].items() if k in ()}
@@ -71,6 +73,13 @@ def corpus():
                         if style == "kitty":
                             c["args"]["blend"] = not mix
                         cs.append(c)
+    # native animation (animated source + ANIM) on every terminal identity
+    for term in TERMS["iterm2"]:
+        for (w, h) in ((1, 1), (3, 2), (4, 1)):
+            for mix in (False, True):
+                cs.append({"style": "iterm2", "cells": [w, h], "alpha": None, "term": term,
+                           "img": {"mode": "RGB", "size": [4, 4], "seed": 7, "kind": "runs", "frames": 3},
+                           "args": {"method": "anim", "mix": mix}})
     # kitty transmissions whose base64 payload is an exact multiple of the chunk size (k * 4096):
     # the last chunk must still close the chunked transmission (m=0)
     for (cells, px, mode, alpha) in (([16, 2], [128, 32], "RGB", None), ([8, 2], [64, 32], "RGB", None),
